@@ -131,7 +131,7 @@ impl Check for Steps {
         o
     }
     fn required(&self, _t: Tier) -> Vec<&'static str> {
-        vec!["rk45|R", "rk23|R", "adams5|S3+A", "adams3|S2A", "bdf6|S7+B", "bdf2|S3+B", "euler|E"]
+        vec!["rk45|R", "rk23|R", "adams5|S3+A", "adams3|S2A", "bdf6|S&&B", "bdf2|S&&B", "euler|E"]
     }
 }
 
